@@ -13,17 +13,45 @@ CLAIMS = {
  "C01": ("One inductive step of Processor.Process from an arbitrary protocol phase (symbolic state, packet type, body, callbacks, dial outcome) plus K-packet histories from the initial state; "
          "asserts success-only-in-order, dial only in phase 3 after the host check and at most once, relay only on DATA with an open channel, nothing read after an error/close response, loop invariant re-established. "
          "Bounded model checking is the right level: the quantifier is over all packet histories, which the step covers by induction (paper argument) and the K-bounded run cross-checks.",
-         "6.C01", "Transport, net.Conn, net.DialTimeout and the three policy callbacks are stubs with the contracts of DESIGN Appendix C; body <= 10 (quick) / 24 (thorough) bytes; inner declared lengths <= carried+4; client-name units after the first are ASCII; induction over steps is a paper argument; websocket/legacy transports themselves are outside."),
- "C03": ("channelRequest/DecodeUTF16 decoded against an independent per-code-unit oracle for all names up to 3 (quick) / 5 (thorough) UTF-16 units and all declared sizes; the step harness proves the string given to CheckHost is byte-equal to the string dialed and that a refusal dials nothing; security.CheckHost/CheckSession policy over bounded host lists and names.",
-         "6.C03", "Names <= 5 units, host strings <= the stated byte bounds, <= 2 host entries; DNS/IPv6 semantics of the dialed string are outside (the property is byte equality)."),
+         "6.C01", "Transport, net.Conn, net.DialTimeout and the three policy callbacks are stubs with the contracts of DESIGN Appendix C; body <= 10 (quick) / 24 (thorough) bytes; inner declared lengths <= carried+4; client-name units after the first are ASCII; induction over steps is a paper argument; the websocket/legacy transports themselves are outside."),
+ "C02": ("security.CheckPAACookie and GeneratePAAToken executed symbolically around contract stubs of go-jose/go-oidc: acceptance implies HS256 allow-list, MAC under the PAA signing key (not any other gateway key), issuer, expiry with the real go-jose Validate arithmetic over symbolic times, IdP verdict on the embedded access token, tunnel bound to the verified claims; minting: HS256 + signing key, expiry - now <= 300 s, refusal under 32 bytes.",
+         "6.C02", "Cryptography is replaced by contracts (DESIGN Appendix C): unforgeability, base64/JSON parsing, bit-mutation resistance and 'a freshly minted token is accepted' are NOT decided; claim strings are 2 (4) symbolic bytes."),
+ "C03": ("channelRequest/DecodeUTF16 decoded against an independent per-code-unit oracle for all names up to 3 (quick) / 5 (thorough) UTF-16 units and all declared sizes; the step harness proves the string given to CheckHost is byte-equal to the string dialed and that a refusal dials nothing; security.CheckHost/CheckSession policy over bounded host lists and names against an oracle written from the property text.",
+         "6.C03", "Names <= 5 units, host strings <= the stated byte bounds, <= 2 (3) host entries with affixes <= 1 (2) bytes; DNS/IPv6 semantics of the dialed string are outside (the property is byte equality)."),
+ "C04": ("CheckSession for all token/presenting address pairs (<= 3/5 bytes, attribute present/absent/non-string) and both switch settings; EnrichContext's client-address derivation from X-Forwarded-For / peer address against an independent oracle; the cookie check binds the tunnel to the verified address claim and the mint writes the clientIp attribute (shared C02 harnesses).",
+         "6.C04", "X-Forwarded-For <= 4 (7) ASCII bytes; four representative peer addresses; textual variants of one IP are different strings by design of the property."),
+ "C05": ("BasicAuth / NTLMAuth middlewares and NoAuthz/SetAuthenticate executed symbolically against a stubbed authentication service: next handler reached iff the backend confirmed, identity = confirmed name, 401/500 and challenge headers otherwise, no panic for any header value the route matcher can deliver.",
+         "6.C05", "The route table built in main() (gorilla/mux builder calls, 16 mechanism subsets) is NOT encoded: gorilla/mux matching, regexp and SPNEGO are third-party; only the middleware decision logic is claimed."),
  "C06": ("forward() and receive() executed symbolically: per read / per DATA packet exactness, header and payload length fields, order, single write, no invented bytes; sizes around 0,1,2,255,4085,4086 (thorough 256,4087,8200).",
          "6.C06", "net.Conn and Transport stubs deliver what they are given; whole-stream exactness follows from per-packet exactness plus C08 framing (paper argument); multi-MiB streams and interleaving of the two directions are outside."),
+ "C07": ("One arbitrary packet on tunnel A from an arbitrary phase while a fully symbolic tunnel B is registed: B's phase, identity, token host, address, transports, backend and registry entry and the shared Gateway are asserted unchanged; HandleGatewayProtocol run for two requests with symbolic connection ids and kinds shows connections share a tunnel only under equal ids.",
+         "6.C07", "2 tunnels, 1 step; 3..64 tunnels and real scheduling are not explored (commutation of disjoint steps is a paper argument); go-cache is a contract stub."),
  "C08": ("readMessage/readHeader run on every segmentation shape of k<=2 (3) packets: whole, two-fragment at every cut, three-fragment, coalesced, oversize first fragment, and a single arbitrary read with all 2^32 length-field values.",
          "6.C08", "Transport stub per Appendix C; bodies <= 2 (6) bytes; three known findings (split3, coalesce, bigfrag) are reported as KNOWN-FINDING, each by its own harness/label; gorilla/httputil chunking itself is outside."),
+ "C09": ("Lockset analysis over the executor's heap-access logs: handler threads of two tunnels and their relay goroutines (cooperative scheduler: goroutines switch where the running one blocks) - any pair of accesses to Tunnel/Gateway/registry/client-writer state from different threads with a write, no common sync.Mutex and no spawn order is a violation, replayed natively under the Go race detector.",
+         "6.C09", "No schedule exploration: lockset is conservative for mutex discipline but blind to channel-based ordering; races inside gorilla/net/http/go-cache are outside; 2 websocket tunnels, one scenario shape."),
+ "C10": ("Every implicit runtime panic on every explored path is an SMT obligation: protocol parsers and readHeader on arbitrary bytes, the Process step, legacy request orderings, the NTLM verifier on arbitrary messages and on adversarial security-buffer descriptors (real go-ntlm parser code interpreted), Authorization header slicing, KDC-proxy list merge and channel accounting.",
+         "6.C10", "setSendReceiveBuffers (reflect), net/http parsing, gorilla, gRPC, PAM (cmd/auth does not build here) and asn1 are outside; message lengths <= 24/40 bytes (NTLM), bodies <= 12/20 bytes (protocol)."),
+ "C11": ("handleWebsocketProtocol / the legacy handler pair run for 0..6 (8) set-up/data packets followed by each way the client side can end; ghost state at return: backend closed, both client transports closed, registry entry gone, gauges restored, and the relay goroutine terminates (cooperative scheduler; a goroutine left parked is a violation).",
+         "6.C11", "Transports, dial and backend are stubs; 'bounded time' is reduced to 'no goroutine left parked forever'; OS sockets and real scheduling are not observed."),
+ "C12": ("HandleDownload, the Authenticated middleware, security.QueryInfo and the composition mint->tunnel checks executed symbolically: no token/file for unauthenticated sessions, host chosen per selection policy, token claims = host with user substituted / user without domain / address / access token, forced gateway settings, and acceptance of the issued host+token by CheckSession(CheckHost).",
+         "6.C12", "RDP text rendering (reflection) is stubbed (see C19); strings <= 2 (3) bytes; assumes the IdP userinfo subject equals the session user name (DESIGN 7.14)."),
+ "C13": ("HandleCallback executed over every failure point (state, code exchange, id_token, verification, claims, user-name claims) with contract stubs for go-cache/oauth2/go-oidc/json: an authenticated identity reaches the session store only if every step succeeded and a non-empty user-name claim exists; identity field mapping of Marshal/Unmarshal restored for all ten fields.",
+         "6.C13", "securecookie integrity, the file store, ID-token cryptography and go-cache's expiry behaviour are contracts, not decided."),
+ "C14": ("K<=3 (4) NTLM requests over two session ids (negotiate / authenticate with symbolic user / undecodable / non-NTLM / empty), real NTLMAuth + ntlmContext + database code and real go-ntlm parsers, the cryptographic verdict a symbolic predicate per (message, session): authenticated implies negotiate earlier in the same live context, configured non-empty password, proof against that session's challenge, exact user name; contexts dropped on error/success; completeness.",
+         "6.C14", "NTLMv2 cryptography is the 'proves' contract; randomness of the challenge and gRPC are outside; user names are 2 ASCII characters."),
+ "C15": ("security.UserInfo / GenerateUserToken around go-jose contract stubs in both key modes and the no-encryption-key corner, and web.TokenInfo statuses (405/400/403/200, nothing disclosed on refusal).",
+         "6.C15", "Confidentiality, per-segment mutation and cross-mode rejection inside go-jose are contracts."),
  "C16": ("All five response builders for every status/version/caps value, tunnel-auth policy word for all 2^7 switch combinations and all int32 idle timeouts, and per-step response layout/status in the C01 step harness, against literal MS-TSGU offsets.",
          "6.C16", "Configuration->Gateway field mapping in main() is not encoded (reflection/third-party constructors); close-response carries 8 extra bytes (noted, not alarmed)."),
  "C17": ("matchAuth for all 2^16 client words x 4 server settings and the whole handshake step (body length 0..8, all version bytes, follow-up packet) in single symbolic runs.",
          "6.C17", "Transport stub; handshake body <= 8 bytes."),
+ "C18": ("config.Load's post-unmarshal logic with koanf stubbed: fatal iff one of the five inconsistent combinations; each key of length 0/1/31/32/33 kept or replaced by a 32-character string from the 63-letter alphabet with one CSPRNG draw per character; NewHandler without hosts and InitStore with short keys are fatal; GenerateRandomString against its specification.",
+         "6.C18", "YAML/env parsing and precedence (koanf, reflection) are not encoded; that two instances draw different keys is a property of the CSPRNG."),
+ "C19": ("RDP.Marshal/Unmarshal on settings maps of <= 2 (3) entries with symbolic ASCII keys/values (round trip, one CRLF line per setting) and an independent classifier for every ASCII line of <= 5 (7) bytes (malformed lines rejected, not skipped); real bufio.Scanner/strings/sort code interpreted.",
+         "6.C19", "Builder.String/NewBuilderFromFile/template precedence use reflection (fatih/structs, mapstructure, koanf) and are NOT encoded; integers are boundary representatives (a symbolic 64-bit Itoa/Atoi round trip does not bit-blast); ASCII only."),
+ "C20": ("KerberosProxy.Handler/forward/awaitReply executed with stubbed KDC list, dial, connections and asn1: rejection statuses contact no KDC, list merge for every (udp,tcp) count, exactly the embedded message per protocol, every request answered (channel sends/receives balanced under the cooperative scheduler), reply = a KDC's reply with the 4-byte prefix for UDP.",
+         "6.C20", "DER validity, 128 KiB bodies beyond the size checks, real UDP/TCP timing are outside; <= 2 (3) KDCs per protocol."),
 }
 
 checks = []
